@@ -798,6 +798,8 @@ func (e *env) replay() {
 			}
 		}
 		os.RemoveAll(filepath.Join(e.work, "replay"))
+	case "semantic":
+		e.replaySemantic(rd)
 	case "regen":
 		r, err := regenerate(e.tars2go, e.repo, e.work)
 		if err != nil {
@@ -888,6 +890,11 @@ func main() {
 	t0 = time.Now()
 	pb := e.partB(pa.Corpus, thorough, time.Now().Add(budget))
 	timings["b_malformed_s"] = time.Since(t0).Seconds()
+
+	// (e) semantically invalid programs
+	t0 = time.Now()
+	sem := e.partSemantic(pa.Corpus, thorough)
+	timings["e_semantically_invalid_s"] = time.Since(t0).Seconds()
 
 	// ---- evidence
 	c := pa.Corpus
@@ -992,6 +999,8 @@ func main() {
 		"valid": map[string]any{"files": len(c.Files), "modules": len(c.Modules), "tool_runs": c.ToolRuns, "exclusion_rounds": c.Rounds, "generated_go_files": c.GenFiles, "generated_go_lines": c.GenLines,
 			"excluded_declarations": len(c.Excluded), "excluded_by_stage": exByStage, "timings_ms": c.TimingsMs, "whole_files_in_process": wholeN, "whole_files_tokens": wholeTokens, "flag_variants": pa.Variants},
 		"regeneration": rg,
+		"semantically_invalid": map[string]any{"programs": sem.Cases, "structs_edited": sem.Structs, "by_kind": sem.ByKind, "outcomes": sem.Outcomes,
+			"rule": "isolated source of a corpus struct with one edit: member i given the tag of member j (every ordered pair; both ends for wide structs), the struct declared twice, a member of an undeclared type; the real binary must refuse each with a diagnostic"},
 		"malformed": map[string]any{"families": famTable, "family_count": pb.families, "cases_enumerated": pb.total, "cases_run_in_process": inproc, "outcomes": outcomes, "tokens_lexed": tokens,
 			"distinct_inputs_mutation_families": distinctMut, "inputs_hashed": hashed(pb.agg), "inputs_distinct_by_construction": byConstruction, "diagnostic_classes_top": diagTop,
 			"worker_processes_spawned": pb.spawned, "worker_deaths_attributed": crashes(pb.agg),
